@@ -327,6 +327,17 @@ class RawSource(io.RawIOBase):
 def make_source(source: str, data: bytes):
     if source == "seek":
         return io.BytesIO(data)
+    if source == "file":
+        # a regular file opened by the caller: a BufferedReader over FileIO (seekable; read(n) allocates what it is asked for)
+        import os
+        import tempfile
+
+        fd, path = tempfile.mkstemp(prefix="verif_src_")
+        with os.fdopen(fd, "wb") as f:
+            f.write(data)
+        fh = open(path, "rb")  # noqa: SIM115
+        os.unlink(path)
+        return fh
     if source.startswith("raw:"):
         return RawSource(data, [int(x) for x in source[4:].split(",")])
     raise ValueError(source)
